@@ -98,7 +98,16 @@ func GenPFB(t *sim.Tape, maxSegs, maxLen int, allow ...PFBAnomaly) (*PFBStream, 
 	case PFBWellFormed:
 		p.EndMarker = !t.Bool(1, 4)
 		if p.EndMarker && t.Bool(1, 3) {
-			p.Trailing = t.Bytes(t.Range(1, 12))
+			switch t.Choose(4) {
+			case 0:
+				p.Trailing = t.Bytes(t.Range(1, 12))
+			case 1: // zero padding
+				p.Trailing = make([]byte, t.Range(1, 16))
+			case 2: // zero padding followed by something
+				p.Trailing = append(make([]byte, t.Range(4, 12)), t.Bytes(t.Range(1, 8))...)
+			default: // what looks like another segment
+				p.Trailing = append([]byte{0x80, byte(1 + t.Choose(2)), 3, 0, 0, 0}, 'x', 'y', 'z')
+			}
 		}
 	case PFBShortBinary, PFBShortText:
 		last := &p.Segs[len(p.Segs)-1]
